@@ -1405,6 +1405,12 @@ def run_shard(shard, tier):
     return res
 
 
+def post(tot, tier):
+    """make the merged result independent of the order in which workers finished"""
+    tot["samples"] = sorted(tot["samples"], key=str)
+    tot["violations"] = sorted(tot["violations"], key=lambda w: (len(str(w)), str(w)))
+
+
 def replay(w):
     with warnings.catch_warnings():
         warnings.simplefilter("ignore")
